@@ -24,7 +24,9 @@ EXTENDS Word, FiniteSets, TLC
 \* maximum cannot be stated from a document get the conservative 16, and the three
 \* byte-code machines with table instructions (java, dotnet, webasm) are not bounded.
 MaxLenOf(cpu) ==
-  CASE cpu \in {"msp430"} -> 6 [] cpu \in {"msp430x"} -> 8
+  \* naken_asm's msp430 entry shares the decoder of msp430x, which also renders the extended (430X) instructions: extension
+  \* word + opcode + two operand words
+  CASE cpu \in {"msp430", "msp430x"} -> 8
     [] cpu \in {"6502", "6800", "8048", "8041", "8051", "8008", "z80", "stm8", "1802", "4004", "tms1000", "tms1100",
                 "f8", "m8c", "sweet16", "86000"} -> 5
     [] cpu \in {"65816", "6809", "68hc08"} -> 5
@@ -32,7 +34,9 @@ MaxLenOf(cpu) ==
     [] cpu \in {"mips", "mips32", "pic32", "n64_rsp", "ps2_ee", "powerpc", "sparc", "arm", "arm64", "cell", "riscv",
                 "riscv64", "propeller", "propeller2", "sh4", "thumb", "arc", "xtensa", "lc3", "avr8", "pic14", "pic18",
                 "pdk13", "pdk14", "pdk15", "pdk16", "pdp8", "agc", "copper", "f100_l", "cp1610", "unsp", "super_fx",
-                "tms9900", "pdp11", "epiphany", "dspic", "pic24", "tms340"} -> 8
+                "tms9900", "pdp11", "epiphany", "dspic", "pic24"} -> 8
+    \* TMS34010: MOVB/MOVE @SAddress, @DAddress = opcode word + two 32-bit addresses
+    [] cpu \in {"tms340"} -> 10
     [] cpu \in {"ps2_ee_vu0", "ps2_ee_vu1", "ebpf"} -> 16
     [] cpu \in {"java", "dotnet", "webasm"} -> 1000000
     [] OTHER -> 16
